@@ -296,7 +296,8 @@ def execute(case):
       obs['skip_eval'] = True       # needs imports; covered by the module-level cases
       return obs, None
     try:
-      back = eval(text, {'__builtins__': __builtins__})
+      import harness as _harness_pkg      # dotted references to harness classes (named tuples) resolve
+      back = eval(text, {'__builtins__': __builtins__, 'harness': _harness_pkg})
       # "an equal value of the same type": values and types, not the sharing inside the value (one
       # expression cannot express that two elements are the same object)
       from harness.props import C20 as _c20v
